@@ -83,7 +83,7 @@ Section times.
                                       ok_times_go stk' rest').
     { intros d' stk' rest'. clear Ht. induction IH as [|k r Hk _ IHr]; [reflexivity|].
       destruct HK as [Ok Or]. cbn [flat_map]. rewrite map_app, <- app_assoc, Hk by exact Ok. apply IHr. exact Or. }
-    destruct ((thr <? t1 - t0) || negb (is_nil (flat_map (xrecs C thr gd (d + 1)) kids))); [|reflexivity].
+    destruct ((thr <=? t1 - t0) || negb (is_nil (flat_map (xrecs C thr gd (d + 1)) kids))); [|reflexivity].
     cbn [map app oideal ok_times_go type_code r_type r_time].
     assert (E0 : (UFTRACE_ENTRY =? UFTRACE_ENTRY) = true) by reflexivity. rewrite E0.
     rewrite !map_app, <- !app_assoc.
